@@ -34,6 +34,10 @@ CHECKS = {
    technique="explicit-state BFS (stateright) over insert histories of the real Hierarchy with all lookups compared to a literal reference in every state; exhaustive list of name-clash queries judged by SQLite's ambiguity verdict",
    text="(a) stateright BFS over all histories of with / extend / from / prepend / collect on the real Hierarchy<u8>, over all paths of length <= 3 on a two-letter alphabet with <= 3 (thorough 4) entries; in every reachable state all 31 lookup paths of length <= 4 through get, get_key_value and Index (panic <=> nothing) must agree with a reference that spells the rule of the property out literally. (b) every query of a list of name clashes (same column in two joined relations in all join kinds and clause positions, self joins, three-way clashes, aliases and CTEs shadowing tables): when SQLite reports an ambiguous column the compiler must not return a relation (an error, or a panic which is handed to C18); when both accept, the results agree on every small database.",
    note="Trusted: the 20-line reference lookup; SQLite's name resolution as the ambiguity oracle (it agrees with PostgreSQL on these queries)."),
+ "C18": dict(level="exploration", design="2/C18",
+   technique="bounded exhaustive enumeration of (query x schema variant x DpParameters) through every pipeline stage of the real compiler, each case in a supervised child process (panic / abort / timeout attributed to the case)",
+   text="Every E-sql query, every name-clash query and one probe per SQL construct the fragment does not claim (about 110) is pushed, for each schema variant (standard, unbounded, zero-containing ranges, i64/f64 extremes; thorough adds zero-width, 129-interval sets, empty value sets, all-nullable), through parse -> relation -> schema -> render -> privacy-unit rewriting (both strategies) -> DP rewriting under several DpParameters including zero budgets. Each stage must end Ok or Err: a panic (caught), an abort or a stall of the child process is a violation attributed to the case. Accepted unsupported constructs must still read every table they name and agree with SQLite on every small database.",
+   note="Trusted: the supervisor (per-case wall clock 20/40 s stands for non-termination). Panic signatures are per query, stage and panic site (file + message, no line number)."),
 }
 NOT_YET = {}
 def main():
